@@ -729,9 +729,11 @@ def rule_R8frozenindex(text, applied, arg=None):
     return t
 
 
-def rule_R14q(text, applied):
+def rule_R14q(text, applied, arg=None):
     """`CALL(..)?` -> `(match CALL(..) { Ok(v_) => v_, Err(e_) => return Err(From::from(e_)) })`: the std desugaring of
-    `?` on a Result (Verus does not connect `?` with the error conversion's specification)."""
+    `?` on a Result (Verus does not connect `?` with the error conversion's specification).  With arg `same` the
+    conversion is omitted (`return Err(e_)`): for identical error types `From::from` is std's reflexive
+    `impl<T> From<T> for T`, the identity; if the types differ the result no longer type-checks => undecided."""
     cnt = 0
     while True:
         m_text = mask(text)
@@ -741,11 +743,12 @@ def rule_R14q(text, applied):
         q = m.end() - 1
         start = _receiver_start(m_text, q)
         expr = text[start:m.start() + 1]
-        new = f"(match {expr} {{ Ok(v_) => v_, Err(e_) => return Err(From::from(e_)) }})"
+        conv = "e_" if arg == "same" else "From::from(e_)"
+        new = f"(match {expr} {{ Ok(v_) => v_, Err(e_) => return Err({conv}) }})"
         text = text[:start] + _keep_newlines(text[start:q + 1], new) + text[q + 1:]
         cnt += 1
     if cnt:
-        applied.append(f"R14qx{cnt}")
+        applied.append(f"R14qx{cnt}" + (f"({arg})" if arg else ""))
     return text
 
 
@@ -1188,6 +1191,35 @@ def rule_R20(text, applied):
     return text
 
 
+def rule_R21(text, applied, arg=None):
+    """`let [mut] X = RECV.METHOD(&mut ARG, REST);` (METHOD takes `&mut self`) -> the two mutable borrows are bound to
+    locals first: `let rcv_ = &mut RECV; let arg_ = &mut ARG; let [mut] X = rcv_.METHOD(arg_, REST);` (same
+    evaluation order; lets ghost code name the final values of the borrows).  arg: METHOD."""
+    meth = arg or "cursor"
+    m_text = mask(text)
+    m = re.search(r"\blet\s+(mut\s+)?(\w+)\s*=\s*([\w\s\.]+?)\s*\.\s*" + re.escape(meth) + r"\s*\(\s*&mut\s+", m_text)
+    if not m:
+        return text
+    op = m_text.index("(", m.start(3) + len(m.group(3)))
+    cp = match_close(m_text, op)
+    parts = split_top_level(m_text[op + 1:cp], text[op + 1:cp])
+    first = parts[0].strip()
+    if not first.startswith("&mut "):
+        raise ExtractError("R21: first argument is not a `&mut` borrow")
+    recv = "".join(text[m.start(3):m.start(3) + len(m.group(3))].split())
+    rest = ", ".join(" ".join(p.split()) for p in parts[1:] if p.strip())
+    semi = cp + 1
+    while m_text[semi] in " \t\n":
+        semi += 1
+    if m_text[semi] != ";":
+        raise ExtractError("R21: call is not a let statement")
+    new = (f"let rcv_ = &mut {recv}; let arg_ = {' '.join(first.split())};\n"
+           f"let {m.group(1) or ''}{m.group(2)} = rcv_.{meth}(arg_{', ' + rest if rest else ''});")
+    text = text[:m.start()] + _keep_newlines(text[m.start():semi + 1], new) + text[semi + 1:]
+    applied.append(f"R21({meth})")
+    return text
+
+
 def rule_subst(text, applied, arg=None):
     """literal type substitution OLD=>NEW inside the item (e.g. `Box<dyn Any>` => an opaque type parameter)."""
     old, new = arg.replace("~", " ").split("=>")
@@ -1203,7 +1235,7 @@ def rule_const(text, applied):
 
 
 RULES = {
-    "R20": rule_R20,
+    "R20": rule_R20, "R21": rule_R21,
     "R1": rule_R1, "R2": rule_R2, "R2ref": rule_R2ref, "R3": rule_R3, "R4": rule_R4, "R5": rule_R5,
     "R8max": rule_R8max, "R8cmpmax": rule_R8cmpmax, "R8resize_none": rule_R8resize_none, "R9": rule_R9, "R8position": rule_R8position, "R8rotate": rule_R8rotate, "R12refcell": rule_R12refcell,
     "R8slice": rule_R8slice, "R7iter": rule_R7iter, "R8bitget": rule_R8bitget, "R8intonext": rule_R8intonext, "R8rposition": rule_R8rposition, "R8contains": rule_R8contains, "R12cell": rule_R12cell, "R8resize_veccap": rule_R8resize_veccap, "R8collectid": rule_R8collectid, "R8index": rule_R8index, "subst": rule_subst,
